@@ -248,7 +248,7 @@ func DefaultConfig() *Config {
 		InitPkgs: []string{
 			"github.com/tikv/pd", "github.com/pingcap/errors", "strconv$", "unicode$", "math$", "sort$", "strings$", "bytes$",
 			"encoding/binary$", "encoding/hex$", "github.com/pingcap/kvproto", "context$", "go.uber.org/atomic",
-			"go.etcd.io/etcd/etcdserver/etcdserverpb", "go.etcd.io/etcd/mvcc/mvccpb",
+			"go.etcd.io/etcd/etcdserver/etcdserverpb", "go.etcd.io/etcd/mvcc/mvccpb", "github.com/google/btree",
 		},
 	}
 }
